@@ -143,10 +143,10 @@ theorem listed_path_same_as_added (sent : List ApiAttr) (stored : List Attribute
 
 /-- the next hop given to AddPath is not shown by ListPath (nor are ORIGINATOR_ID / CLUSTER_LIST) -/
 theorem next_hop_not_listed :
-    run current (.grpc (.prefix (.ip4 167772160) 8) [.nextHop (.ip4 3221225985)] []) =
-      .listed (.prefix (.ip4 167772160) 8) [.origin 0, .asPath []] (some .notFound) ∧
-    Spec.check (.grpc (.prefix (.ip4 167772160) 8) [.nextHop (.ip4 3221225985)] [])
-      (.listed (.prefix (.ip4 167772160) 8) [.origin 0, .asPath []] (some .notFound)) = .fail "listed-path-lacks-next-hop" := by
+    run current (.grpc (.prefix (.ip4 167772160) 8) [.nextHop (.ip4 3221225985)] [] false) =
+      .listed (.prefix (.ip4 167772160) 8) [.origin 0, .asPath []] (some .notFound) 0 ∧
+    Spec.check (.grpc (.prefix (.ip4 167772160) 8) [.nextHop (.ip4 3221225985)] [] false)
+      (.listed (.prefix (.ip4 167772160) 8) [.origin 0, .asPath []] (some .notFound) 0) = .fail "listed-path-lacks-next-hop" := by
   refine ⟨?_, by decide⟩
   simp [run, netFromApi, ApiNlri.strict, hostBitsClear, netFromApi0, current, localPath, convertAll, fromApi,
     ApiAttr.strict, fromApi0, AStr.parse4, newWithBin, canonicalFlags, Attribute.valueLen, maxAttrValue,
